@@ -287,7 +287,7 @@ func (in *Interp) concreteIndex(iv Value, n int) int {
 			t = in.ts.Mk(fmt.Sprintf("(_ sign_extend %d)", 64-t.sort.Width()), SBV(64), t)
 		}
 		if n > in.cfg.MaxIndexSplit {
-			panic(pathAbort{fmt.Sprintf("unsupported: symbolic index into %d elements", n)})
+			return in.sampledIndex(t, n)
 		}
 		k := in.branch(n+1, "", func(k int) *Term {
 			if k < n {
@@ -301,6 +301,66 @@ func (in *Interp) concreteIndex(iv Value, n int) int {
 		return k
 	}
 	panic(fmt.Sprintf("engine: index %T", iv))
+}
+
+// sampledIndex handles a symbolic index into a table too large to case-split:
+// a fixed (re-execution-stable) candidate list is explored — both ends, the
+// middle, and the integer constants that occur in the index term itself (the
+// offset of `tab[i+128]`) with their neighbours — and the remainder of the
+// index domain, if feasible, is given up as unsupported, which keeps the
+// harness INCONCLUSIVE unless one of the explored positions is a violation.
+func (in *Interp) sampledIndex(t *Term, n int) int {
+	cand := []int{0, 1, n - 1, n / 2}
+	seen := map[int]bool{}
+	var consts func(x *Term, depth int)
+	consts = func(x *Term, depth int) {
+		if depth > 6 || len(cand) > 24 {
+			return
+		}
+		if x.IsConst() && x.sort != SBool && x.sort.Width() <= 64 && !x.sort.IsFP() {
+			c := signExt(x.cbits, x.sort.Width())
+			for _, d := range []int64{0, -1, 1} {
+				if v := c + d; v >= 0 && v < int64(n) {
+					cand = append(cand, int(v))
+				}
+				if v := -c + d; v >= 0 && v < int64(n) {
+					cand = append(cand, int(v))
+				}
+			}
+		}
+		for _, a := range x.args {
+			consts(a, depth+1)
+		}
+	}
+	consts(t, 0)
+	var cs []int
+	for _, c := range cand {
+		if c >= 0 && c < n && !seen[c] {
+			seen[c] = true
+			cs = append(cs, c)
+		}
+	}
+	m := len(cs)
+	k := in.branch(m+2, "", func(k int) *Term {
+		switch {
+		case k < m:
+			return in.intCmp("=", t, in.ts.BV(64, uint64(cs[k])))
+		case k == m:
+			return in.ts.Or(in.intCmp("bvslt", t, in.ts.BV(64, 0)), in.intCmp("bvsge", t, in.ts.BV(64, uint64(n))))
+		}
+		conj := []*Term{in.intCmp("bvsge", t, in.ts.BV(64, 0)), in.intCmp("bvslt", t, in.ts.BV(64, uint64(n)))}
+		for _, c := range cs {
+			conj = append(conj, in.ts.Not(in.intCmp("=", t, in.ts.BV(64, uint64(c)))))
+		}
+		return in.ts.And(conj...)
+	})
+	if k == m {
+		panic(&GoPanic{rt: fmt.Sprintf("index out of range [%s] with length %d", "symbolic", n), class: "rt:index"})
+	}
+	if k == m+1 {
+		panic(pathAbort{fmt.Sprintf("unsupported: symbolic index into %d elements (%d sampled positions explored)", n, m)})
+	}
+	return cs[k]
 }
 
 func (in *Interp) concreteInt(v Value, what string) int {
